@@ -20,6 +20,7 @@ def parsePairs (s : String) : List (Nat × Nat) :=
 def stepLetter : WStep → String
   | .mask => "m" | .edit => "e" | .restore => "r" | .comp => "c"
   | .call _ => "k" | .exit _ => "x" | .other _ => "o"
+  | .tryB => "t" | .fin => "f" | .tryE => "y"
 
 def findWindow (site : String) : Option Window :=
   StructC06.windows.find? (·.site == site)
@@ -28,8 +29,8 @@ def findWindow (site : String) : Option Window :=
 content (integers, `inf` coded as `-1`), `c` = the temporary constant -/
 def windowTrace (w : Window) (c : Int) (x : List (List Int)) : List (List Int) :=
   match w.form with
-  | .maskInf => wtrace (maskOps (· == (-1 : Int)) c (-1)) ⟨x.flatten, [], [], [], false⟩ w.steps
-  | .diagInfZero => (wtrace (diagOps c (0 : Int)) ⟨x, (), [], [], false⟩ w.steps).map List.flatten
+  | .maskInf => wtrace (maskOps (· == (-1 : Int)) c (-1)) (WState.start x.flatten []) w.steps
+  | .diagInfZero => (wtrace (diagOps c (0 : Int)) (WState.start x ()) w.steps).map List.flatten
 
 def answer (toks : List String) : String :=
   match toks with
